@@ -40,8 +40,7 @@ class CountBranchesLoops( ast.NodeVisitor ):
       self.visit( stmt )
 
     if node.returns:
-      for expr in node.returns:
-        self.visit( expr )
+      self.visit( node.returns ) # the annotation is one expression, not a list
 
   def visit_If( self, node ):
     self.only_loop_at_top &= (self.loop_stack > 0)
